@@ -475,6 +475,9 @@ class HelicityAmplitudeBuilder:
             sequential_graphs = _perform_combinatorics(transition)
             for graph in sequential_graphs:
                 first_transition = _freeze(graph)
+                # identical particles in different nodes: the symmetrized graph has
+                # another topology, so its kinematic variables have to be defined too
+                self.adapter.register_transition(first_transition)
                 expression = self.__formulate_sequential_decay(first_transition)
                 sequential_expressions.append(expression)
 
